@@ -44,6 +44,16 @@ def generate(tier, seed, work, stats):
             d = singles[j]
             cases.append(dict(prodsA=c["prods"], prodsB=d["prods"], vpoolA=c["vpool"], vpoolB=d["vpool"] if j != i else c["vpool"],
                               tpool="ab", same=(j == i), family="CFGGen-pairs", L=4))
+            if j != i and (i + j) % 13 == 0:
+                # an operand whose productions all have empty bodies and none of them belongs to the start symbol (empty
+                # language, not the epsilon language), on either side
+                deg = [["A", []], ["B", []]] if (i + j) % 2 else [["A", []]]
+                if (i + j) // 13 % 2:
+                    cases.append(dict(prodsA=deg, prodsB=d["prods"], vpoolA="upper", vpoolB=d["vpool"], tpool="ab", same=False,
+                                      family="CFGGen-pairs-empty-bodies-only", L=4))
+                else:
+                    cases.append(dict(prodsA=c["prods"], prodsB=deg, vpoolA=c["vpool"], vpoolB="upper", tpool="ab", same=False,
+                                      family="CFGGen-pairs-empty-bodies-only", L=4))
             if j != i and (i + j) % 11 == 0:
                 # one operand is a grammar object without start symbol (empty language)
                 cases.append(dict(prodsA=c["prods"], prodsB=d["prods"], vpoolA=c["vpool"], vpoolB=d["vpool"], tpool="ab",
